@@ -141,7 +141,7 @@ def compat_u2s(u):
 
 
 class _VersionIndependentUnmarshaller:
-    def __init__(self, fp, magic_int, bytes_for_s, code_objects={}):
+    def __init__(self, fp, magic_int, bytes_for_s, code_objects=None):
         """
         Marshal versions:
             0/Historical: Until 2.4/magic int 62041
@@ -674,7 +674,10 @@ class _VersionIndependentUnmarshaller:
             version_triple=self.version_tuple,
         )
 
-        self.code_objects[str(code)] = code
+        # Only when the caller asked for it: the key embeds co_name and
+        # co_filename, which the file controls and which can be huge.
+        if self.code_objects is not None:
+            self.code_objects[str(code)] = code
         ret = code
         return self.r_ref_insert(ret, i)
 
@@ -693,7 +696,7 @@ class _VersionIndependentUnmarshaller:
 # user interface
 
 
-def load_code(fp, magic_int, bytes_for_s=False, code_objects={}):
+def load_code(fp, magic_int, bytes_for_s=False, code_objects=None):
     if isinstance(fp, bytes):
         fp = io.BytesIO(fp)
     um_gen = _VersionIndependentUnmarshaller(
